@@ -28,10 +28,13 @@ PrimDom(p) == PrimBase(p) \cup ExtraVals(p)   \* ExtraVals: per-run extra leaf v
 (* dictionary keys: a small ordered domain per key type *)
 KeyDom(kt) ==
   CASE kt = "string" -> <<<<>>, <<97>>, <<97, 98>>, <<98>>>>
-    \* the second key is the most negative signed value (the largest unsigned one with the top bit):
-    \* it must sort first for signed keys, and it is 2^31 / 2^63 away from its neighbours
-    [] kt \in {"int32", "uint32"} -> <<Z4, <<0, 0, 0, 128>>, <<1, 0, 0, 0>>, <<0, 1, 0, 0>>>>
-    [] kt \in {"int64", "uint64"} -> <<Z8, <<0, 0, 0, 0, 0, 0, 0, 128>>, <<1, 0, 0, 0, 0, 0, 0, 0>>, <<0, 1, 0, 0, 0, 0, 0, 0>>>>
+    \* ascending in the order of the key type (values are built in this order and map-backed
+    \* dictionaries are written sorted). Signed keys start with the most negative value: it must
+    \* sort first although it is 2^31 / 2^63 away from its neighbour
+    [] kt = "int32"  -> <<<<0, 0, 0, 128>>, Z4, <<1, 0, 0, 0>>, <<0, 1, 0, 0>>>>
+    [] kt = "uint32" -> <<Z4, <<1, 0, 0, 0>>, <<0, 1, 0, 0>>, <<0, 0, 0, 128>>>>
+    [] kt = "int64"  -> <<<<0, 0, 0, 0, 0, 0, 0, 128>>, Z8, <<1, 0, 0, 0, 0, 0, 0, 0>>, <<0, 1, 0, 0, 0, 0, 0, 0>>>>
+    [] kt = "uint64" -> <<Z8, <<1, 0, 0, 0, 0, 0, 0, 0>>, <<0, 1, 0, 0, 0, 0, 0, 0>>, <<0, 0, 0, 0, 0, 0, 0, 128>>>>
     [] kt = "byte" -> <<<<0>>, <<1>>, <<2>>, <<200>>>>
     [] OTHER -> <<>>
 
